@@ -1,0 +1,64 @@
+//go:build verif
+
+package capacity
+
+// Contracts for govc (see /verif/DESIGN.md, C15 / C09 / C11). Comment-only; compiled only with -tags verif.
+
+// ---- C15: size-driven selection
+
+//@ func usableBitLength
+//@   modifies nothing
+//@   ensures three-lengths: len(result) == 3 && fresh(result) && result[0] == 24 && result[1] == 26 && result[2] == 28
+
+//@ func checkOSDiskSizeByPath
+//@   modifies nothing
+//@   ensures negative-rejected: requiredBytes < 0 ==> err != nil
+
+//@ func (*SpaceKeeper).checkOSDiskSize
+//@   requires len(sk.dbDirs) > 0
+//@   modifies nothing
+//@   ensures negative-rejected: requiredBytes < 0 ==> err != nil
+
+//@ func fillSpaceListBySize
+//@   requires size-range: 0 <= currentSize && currentSize <= targetSize && targetSize <= 4611686018427387904
+//@   loop i invariant reversed: tmpLen == 3 && len(allowedBL) == 3 && ((i == 0 && allowedBL[0] == 24 && allowedBL[1] == 26 && allowedBL[2] == 28) || (i == 1 && allowedBL[0] == 28 && allowedBL[1] == 26 && allowedBL[2] == 24))
+//@   loop bl invariant lengths: len(allowedBL) == 3 && allowedBL[0] == 28 && allowedBL[1] == 26 && allowedBL[2] == 24
+//@   loop bl invariant never-above-target: old(currentSize) <= currentSize && currentSize <= targetSize && len(dstList) >= len(old(dstList))
+//@   loop space invariant never-above-target: old(currentSize) <= currentSize && currentSize <= targetSize && len(dstList) >= len(old(dstList)) && (bl == 24 || bl == 26 || bl == 28)
+//@   ensures never-above-target: currentSize <= result1 && result1 <= targetSize
+//@   ensures finished-iff-gap-below-smallest-plot: result2 == (targetSize - result1 < 100663296)
+//@   ensures only-appends: len(result0) >= len(dstList)
+
+//@ func (*SpaceKeeper).generateFillSpaceListBySize
+//@   requires size-range: 0 <= currentSize && currentSize <= targetSize && targetSize <= 4611686018427387904 && len(sk.dbDirs) > 0
+//@   loop i invariant reversed: tmpLen == 3 && len(allowedBL) == 3 && ((i == 0 && allowedBL[0] == 24 && allowedBL[1] == 26 && allowedBL[2] == 28) || (i == 1 && allowedBL[0] == 28 && allowedBL[1] == 26 && allowedBL[2] == 24))
+//@   loop bl invariant lengths: len(allowedBL) == 3 && allowedBL[0] == 28 && allowedBL[1] == 26 && allowedBL[2] == 24
+//@   loop bl invariant never-above-target: old(currentSize) <= currentSize && currentSize <= targetSize && (#rangeindex >= 0 ==> targetSize - currentSize < plotSz(allowedBL[#rangeindex]))
+//@   loop #3 invariant never-above-target: old(currentSize) <= currentSize && currentSize <= targetSize && (bl == 24 || bl == 26 || bl == 28) && len(allowedBL) == 3 && allowedBL[0] == 28 && allowedBL[1] == 26 && allowedBL[2] == 24
+//@   loop #3 decreases targetSize - currentSize
+//@   assert-at call generateNewWorkSpace disk-checked-and-fits: targetSize - currentSize >= 0 && (bl == 24 || bl == 26 || bl == 28)
+//@   ensures fills-up-to-smallest-plot: err == nil ==> currentSize <= result1 && result1 <= targetSize && targetSize - result1 < 100663296
+
+//@ func fillSpaceListByPathSize
+//@   requires size-range: 0 <= currentSize && currentSize <= targetSize && targetSize <= 4611686018427387904
+//@   requires spaces-non-nil: forall b int :: has(srcMap, b) ==> (forall j int :: 0 <= j && j < len(srcMap[b]) ==> srcMap[b][j] != nil)
+//@   loop i invariant reversed: tmpLen == 3 && len(allowedBL) == 3 && ((i == 0 && allowedBL[0] == 24 && allowedBL[1] == 26 && allowedBL[2] == 28) || (i == 1 && allowedBL[0] == 28 && allowedBL[1] == 26 && allowedBL[2] == 24))
+//@   loop bl invariant lengths: len(allowedBL) == 3 && allowedBL[0] == 28 && allowedBL[1] == 26 && allowedBL[2] == 24
+//@   loop bl invariant never-above-target: old(currentSize) <= currentSize && currentSize <= targetSize && len(dstList) >= len(old(dstList))
+//@   loop space invariant never-above-target: old(currentSize) <= currentSize && currentSize <= targetSize && len(dstList) >= len(old(dstList)) && (bl == 24 || bl == 26 || bl == 28)
+//@   ensures never-above-target: currentSize <= result1 && result1 <= targetSize
+//@   ensures finished-iff-gap-below-smallest-plot: result2 == (targetSize - result1 < 100663296)
+//@   ensures only-appends: len(result0) >= len(dstList)
+
+//@ func (*SpaceKeeper).generateFillSpaceListByPathSize
+//@   requires size-range: 0 <= currentSize && currentSize <= targetSize && targetSize <= 4611686018427387904
+//@   loop i invariant reversed: tmpLen == 3 && len(allowedBL) == 3 && ((i == 0 && allowedBL[0] == 24 && allowedBL[1] == 26 && allowedBL[2] == 28) || (i == 1 && allowedBL[0] == 28 && allowedBL[1] == 26 && allowedBL[2] == 24))
+//@   loop bl invariant lengths: len(allowedBL) == 3 && allowedBL[0] == 28 && allowedBL[1] == 26 && allowedBL[2] == 24
+//@   loop bl invariant never-above-target: old(currentSize) <= currentSize && currentSize <= targetSize && (#rangeindex >= 0 ==> targetSize - currentSize < plotSz(allowedBL[#rangeindex]))
+//@   loop #3 invariant never-above-target: old(currentSize) <= currentSize && currentSize <= targetSize && (bl == 24 || bl == 26 || bl == 28) && len(allowedBL) == 3 && allowedBL[0] == 28 && allowedBL[1] == 26 && allowedBL[2] == 24
+//@   loop #3 decreases targetSize - currentSize
+//@   assert-at call generateNewWorkSpaceByPath only-in-requested-directory: arg1 == path && (bl == 24 || bl == 26 || bl == 28)
+//@   ensures fills-up-to-smallest-plot: err == nil ==> currentSize <= result1 && result1 <= targetSize && targetSize - result1 < 100663296
+
+//@ func (*SpaceKeeper).generateNewWorkSpace
+//@   requires len(sk.dbDirs) > 0
